@@ -10,28 +10,28 @@ import (
 
 // modelCfg mirrors Model/C03.lean Cfg for a mode.
 type modelCfg struct {
-	headLen, bufSize, copyMax, replyLen, replyGran, replyBody int
-	replyKeep                                                 bool
+	headLen, bufSize, copyMax, replyLen, replyGran int
+	replyKeep                                      bool
 }
 
 func (c modelCfg) wire() string {
 	return strings.Join([]string{core.Itoa(c.headLen), core.Itoa(c.bufSize), core.Itoa(c.copyMax), core.Itoa(c.replyLen),
-		core.Itoa(c.replyGran), core.B01(c.replyKeep), core.Itoa(c.replyBody)}, ",")
+		core.Itoa(c.replyGran), core.B01(c.replyKeep)}, ",")
 }
 
 func cfgFor(tc *tunnelCase, headLen, replyLen int) modelCfg {
 	mode := tc.Mode
 	c := modelCfg{headLen: headLen, bufSize: 4096, copyMax: 32 << 10, replyLen: replyLen, replyGran: 1}
-	if knownClass(tc) == classReplyCL {
-		c.replyBody = 5 // the Content-Length of connectReplyCL: drained by res.Body.Close() in connectHTTP
-	}
 	if baseMode(mode) == "upgrade" {
 		// net/http's transport reads the 101 through its own bufio.Reader (ReadBufferSize 32 KiB in
 		// forwarder's transport) and hands it over inside readWriteCloserBody
 		c.replyGran, c.replyKeep = 32<<10, true
 	}
 	// http / https: dialvia's byteReader; socks5: x/net's client reads exact field lengths, which is
-	// the same as never asking for more than the reply still has (modelled as the byte-wise reader)
+	// the same as never asking for more than the reply still has (modelled as the byte-wise reader).
+	// The reply is its head, whatever Content-Length / Transfer-Encoding that head carries: a 2xx reply
+	// to CONNECT has no content (dialvia gives it http.NoBody), so the configuration does not depend on
+	// tc.ReplyVariant beyond the head's length
 	return c
 }
 
@@ -156,7 +156,7 @@ func schedule(r *core.Rand, c modelCfg, tc *tunnelCase, head, reply []byte, sent
 				})
 			}
 		case 1:
-			if taken[1] < c.replyLen+c.replyBody {
+			if taken[1] < c.replyLen {
 				if w[1] > taken[1] {
 					opts = append(opts, func() {
 						max := w[1] - taken[1]
@@ -250,7 +250,7 @@ func (e *env) compareWithModelRun(ctx *core.Ctx, tc *tunnelCase, obs *tunnelObs,
 		core.Fatalf("C03: the model rejected a generated schedule: %s (steps %v)", ans, steps)
 	}
 	mu, md := core.MustUnHex(kv["up"]), core.MustUnHex(kv["down"])
-	want := fmt.Sprintf("phase=closed eofU=1 eofD=1 closedC=1 closedT=1 expired=0 dropped=%d accept=%s", c.replyBody, core.B01(c.replyBody == 0))
+	want := "phase=closed eofU=1 eofD=1 closedC=1 closedT=1 expired=0 dropped=0 accept=1"
 	got := fmt.Sprintf("phase=%s eofU=%s eofD=%s closedC=%s closedT=%s expired=%s dropped=%s accept=%s",
 		kv["phase"], kv["eofU"], kv["eofD"], kv["closedC"], kv["closedT"], kv["expired"], kv["dropped"], kv["accept"])
 	if got != want {
